@@ -28,7 +28,7 @@ from ..exec import xlib, drivers, pyfront, luafront, upstream
 
 LEVEL = "exploration"
 
-LENGTHS = [40, 72, 100, 132]
+LENGTHS = [40, 72, 100, 132, 200]    # (input.rst: a large C_line_length when the C sources go through a formatter)
 # The configured Fortran length does not count the continuation marker ' &' (see property C13), and a
 # Fortran line may not exceed 132 columns: 130 is the largest value that can give valid free-form source
 F_LENGTHS = [40, 72, 100, 130]
@@ -201,7 +201,7 @@ def build_smallgen(work, model, options):
                 objs.append(src + ".o")
     fl = os.path.join(work, "ffiles.txt")
     for src in (open(fl).read().split() if os.path.exists(fl) else []):
-        rc, err = run_cmd(["gfortran", "-cpp", "-ffree-form", "-w", "-c", os.path.basename(src), "-o", os.path.basename(src) + ".o"], outd)
+        rc, err = run_cmd(["gfortran", "-cpp", "-ffree-form", "-c", os.path.basename(src), "-o", os.path.basename(src) + ".o"], outd)
         if rc != 0:
             problems.append(("compile:fortran", "%s does not compile: %s" % (os.path.basename(src), first_error(err))))
         else:
@@ -340,6 +340,28 @@ def run(ctx):
         for key, note in out["problems"]:
             ctx.failure("sg:" + key, dict(sg_model=out["lib"], options=out["options"]), expected="compiles", observed=note,
                         note="admitted-grammar library %s: %s" % (out["options"], note))
+    # long signatures: statements that do not fit into one line at any admitted length (each language folds its
+    # own sources at its own length option, whatever the other one is set to)
+    words = ["temperature", "pressure", "density", "velocity", "viscosity", "conductivity", "permeability", "saturation",
+             "porosity", "compressibility", "diffusivity", "concentration"]
+    ljobs = []
+    for li, lang in enumerate(("c", "c++")):
+        for npar in (8, 12):
+            ps = [smallgen.P("%s_of_cell%d" % (w, k), "double %s_of_cell%d" % (w, k), "", "N1", "double") for k, w in enumerate(words[:npar])]
+            if lang == "c++":
+                ps.append(smallgen.P("label_of_region", "const std::string &label_of_region", "", "S3in", "string", c=False))
+            lm = dict(library="LongSig", language=lang, options={"wrap_python": True, "wrap_lua": lang == "c++"}, format={}, decls=[
+                dict(kind="func", name="update_material_state_of_all_cells", rtype="double", rattrs="", rrow="RN", rT="double",
+                     const=False, static=False, options={}, format={}, extra={}, py=True, lua=True, params=ps)])
+            for cfg in ({}, {"C_line_length": 200}, {"F_line_length": 40}, {"C_line_length": 40, "F_line_length": 130},
+                        {"C_line_length": 200, "F_line_length": 40, "debug": True}):
+                ljobs.append((len(ljobs), lm, dict(cfg)))
+    for out in core.pool_map(_sg_job, ljobs):
+        ctx.case(label=["family:long-signature"], nontrivial=("long", out["lib"]["language"], len(out["lib"]["decls"][0]["params"]),
+                                                               repr(sorted(out["options"].items()))))
+        for key, note in out["problems"]:
+            ctx.failure("sg:" + key, dict(sg_model=out["lib"], options=out["options"]), expected="compiles", observed=note,
+                        note="long-signature library %s: %s" % (out["options"], note))
     # probe of the recorded finding
     vm = dict(library="VecLib", language="c++", options={"wrap_python": False, "wrap_lua": False}, format={}, decls=[
         dict(kind="func", name="vsum", rtype="int", rattrs="", rrow="RN", rT="int", const=False, static=False, options={}, format={}, extra={},
@@ -374,7 +396,13 @@ def run(ctx):
     import random  # deterministic choice of variants from VERIF_SEED
     rnd = random.Random(ctx.seed)
     vjobs = []
-    for (nme, kind) in sorted(in_domain):
+    for vi, (nme, kind) in enumerate(sorted(in_domain)):
+        if vi % 2 == 0 or not quick:
+            # only the C length set, and set large (input.rst: when the C sources go through a formatter);
+            # the Fortran sources keep their default length
+            vjobs.append((nme, kind, {"C_line_length": 200}))
+            if quick:
+                continue
         for _ in range(1 if quick else 4):
             opts = {}
             for k in ("debug", "doxygen", "show_splicer_comments"):
